@@ -119,6 +119,9 @@ pub struct Found {
   /// wall-clock setting ("secs.nanos") of the child process that found it, if any
   #[serde(default)]
   pub clock: Option<String>,
+  /// build profile of the child process that found it ("plain"), if not the main one
+  #[serde(default)]
+  pub profile: Option<String>,
 }
 
 #[derive(Default)]
@@ -253,7 +256,7 @@ impl Ctx {
           rep.evaluations += 1;
           rep.nontrivial.insert(hash_of(&f.display().to_string()));
           if !rep.found.iter().any(|x| x.sig == sig) {
-            rep.found.push(Found { sub: sub_name.to_string(), sig, detail: format!("[saved case {}] {}", f.file_name().and_then(|n| n.to_str()).unwrap_or("?"), detail), case: v["case"].clone(), shrunk: true, clock: None });
+            rep.found.push(Found { sub: sub_name.to_string(), sig, detail: format!("[saved case {}] {}", f.file_name().and_then(|n| n.to_str()).unwrap_or("?"), detail), case: v["case"].clone(), shrunk: true, clock: None, profile: None });
           }
         }
         Ok(_) => {
@@ -339,6 +342,7 @@ impl Ctx {
             case: f["case"].clone(),
             shrunk: f["shrunk"].as_bool().unwrap_or(false),
             clock: Some(clock.clone()),
+            profile: None,
           });
         }
       }
@@ -355,11 +359,74 @@ impl Ctx {
   }
   /// `q` in the quick tier, `t` in the thorough tier
   pub fn n(&self, q: u32, t: u32) -> u32 {
-    if self.quick() {
-      q
+    let n = if self.quick() { q } else { t };
+    // a child process (set clock, other build profile) repeats a tenth of the generated cases
+    if self.is_clock_child() {
+      (n / 10).max(n.min(40))
     } else {
-      t
+      n
     }
+  }
+  /// true in any child process of a check (set clock / other build profile): reduced job set, results handed to the parent
+  pub fn is_child(&self) -> bool {
+    self.is_clock_child()
+  }
+
+  /// Re-runs this property's reduced job set with the harness AND the library built the way `cargo build --release`
+  /// builds them (profile `plain`: no debug assertions, wrapping arithmetic) - the main binary keeps both switched on so
+  /// that overflows and debug assertions surface, which also means code inside `debug_assert!` runs there and nowhere else.
+  pub fn profile_child(&self) {
+    if self.is_child() {
+      return;
+    }
+    let exe = match std::env::var("PV_PLAIN").map(PathBuf::from).or_else(|_| std::env::current_exe().map(|e| e.parent().and_then(|p| p.parent()).map(|p| p.join("plain").join("pv")).unwrap_or_default())) {
+      Ok(e) => e,
+      Err(_) => return,
+    };
+    let mut rep = SubReport { name: format!("{}/release-profile-without-debug-assertions", self.property), exhaustive: Some(false), ..Default::default() };
+    if !exe.exists() {
+      rep.extra.insert("skipped".into(), json!("plain-profile binary not built"));
+      self.reports.lock().unwrap().push(rep);
+      return;
+    }
+    let t0 = Instant::now();
+    let out = std::process::Command::new(&exe)
+      .args([self.property, if self.quick() { "quick" } else { "thorough" }])
+      .env("PV_CHILD", "1")
+      .env("VERIF_SEED", self.seed.to_string())
+      .env("PV_VERIF", verif_dir())
+      .output();
+    let parsed: Option<Value> = out.as_ref().ok().and_then(|o| {
+      let text = String::from_utf8_lossy(&o.stdout).to_string();
+      text.lines().rev().find(|l| l.starts_with("PVCHILD ")).and_then(|l| serde_json::from_str(&l[8..]).ok())
+    });
+    match parsed {
+      None => {
+        rep.extra.insert("aborted".into(), json!(format!("the plain-profile child produced no report (exit {:?})", out.ok().and_then(|o| o.status.code()))));
+      }
+      Some(v) => {
+        rep.evaluations = v["evaluations"].as_u64().unwrap_or(0);
+        for i in 0..v["distinct_nontrivial"].as_u64().unwrap_or(0) {
+          rep.nontrivial.insert(hash_of(&("plain", i)));
+        }
+        *rep.classes.entry("profile:plain".into()).or_insert(0) += rep.evaluations;
+        if let Some(found) = v["found"].as_array() {
+          for f in found {
+            rep.found.push(Found {
+              sub: f["sub"].as_str().unwrap_or("").to_string(),
+              sig: f["sig"].as_str().unwrap_or("").to_string(),
+              detail: format!("[library and harness built without debug assertions / overflow checks] {}", f["detail"].as_str().unwrap_or("")),
+              case: f["case"].clone(),
+              shrunk: f["shrunk"].as_bool().unwrap_or(false),
+              clock: None,
+              profile: Some("plain".into()),
+            });
+          }
+        }
+      }
+    }
+    rep.wall_s = t0.elapsed().as_secs_f64();
+    self.reports.lock().unwrap().push(rep);
   }
   fn sub_seed(&self, sub: &str) -> [u8; 32] {
     let mut out = [0u8; 32];
@@ -456,7 +523,7 @@ impl Ctx {
           Verdict::Violation { detail, .. } => detail,
           _ => "(violation did not reproduce on the shrunk case)".to_string(),
         };
-        rep.found.push(Found { sub: name.clone(), sig, detail, case: serde_json::to_value(&minimal).unwrap_or(Value::Null), shrunk: true, clock: None });
+        rep.found.push(Found { sub: name.clone(), sig, detail, case: serde_json::to_value(&minimal).unwrap_or(Value::Null), shrunk: true, clock: None, profile: None });
       }
       Err(TestError::Abort(reason)) => {
         rep.extra.insert("aborted".into(), Value::String(reason.to_string()));
@@ -487,7 +554,7 @@ impl Ctx {
           if self.known.contains(&sig) {
             *rep.known_hits.entry(sig).or_insert(0) += 1;
           } else if seen_sigs.insert(sig.clone()) && rep.found.len() < 20 {
-            rep.found.push(Found { sub: name.clone(), sig, detail, case: serde_json::to_value(&case).unwrap_or(Value::Null), shrunk: false, clock: None });
+            rep.found.push(Found { sub: name.clone(), sig, detail, case: serde_json::to_value(&case).unwrap_or(Value::Null), shrunk: false, clock: None, profile: None });
           }
         }
       }
@@ -540,7 +607,7 @@ impl Ctx {
         if self.known.contains(&sig) {
           *rep.known_hits.entry(sig).or_insert(0) += 1;
         } else if seen.insert(sig.clone()) {
-          rep.found.push(Found { sub: sub.name(), sig, detail, case: serde_json::to_value(&case).unwrap_or(Value::Null), shrunk: false, clock: None });
+          rep.found.push(Found { sub: sub.name(), sig, detail, case: serde_json::to_value(&case).unwrap_or(Value::Null), shrunk: false, clock: None, profile: None });
         }
       }
     }
@@ -719,6 +786,9 @@ pub fn finish(ctx: Ctx, meta: EvidenceMeta) -> Outcome {
     if let Some(c) = &f.clock {
       body["clock"] = json!(c);
     }
+    if let Some(p) = &f.profile {
+      body["profile"] = json!(p);
+    }
     let _ = std::fs::write(&path, serde_json::to_string_pretty(&body).unwrap());
     let mut d = f.detail.clone();
     if d.len() > 700 {
@@ -804,6 +874,14 @@ pub fn replay(property: &str, subs: Vec<Box<dyn DynSub>>, file: &str) -> i32 {
       return 2;
     }
   };
+  if let (Some("plain"), Err(_)) = (v["profile"].as_str(), std::env::var("PV_CHILD")) {
+    // found by the binary built without debug assertions: replay it there
+    let exe = std::env::var("PV_PLAIN").map(PathBuf::from).unwrap_or_else(|_| std::env::current_exe().ok().and_then(|e| e.parent().and_then(|p| p.parent()).map(|p| p.join("plain").join("pv"))).unwrap_or_default());
+    if exe.exists() && std::env::current_exe().ok().as_deref() != Some(exe.as_path()) {
+      let st = std::process::Command::new(exe).args([property, "--replay", file]).status();
+      return st.ok().and_then(|s| s.code()).unwrap_or(2);
+    }
+  }
   if let (Some(clock), Err(_)) = (v["clock"].as_str(), std::env::var("PV_CLOCK_SET")) {
     // the case was found under a set wall clock: replay it in a child under the same clock
     let lib = std::env::var("PV_FAKECLOCK").map(PathBuf::from).unwrap_or_else(|_| verif_dir().join(".work").join("libfakeclock.so"));
